@@ -15,7 +15,7 @@ EXTENDS Integers, Sequences
 
 \* class of error the public call must return for an injected failure kind
 ClassOf(kind) ==
-    CASE kind \in {"other", "eof", "denied", "zero", "create:io"} -> "io"   \* an I/O error as an I/O error
+    CASE kind \in {"other", "eof", "denied", "timeout", "wouldblock", "zero", "create:io"} -> "io"   \* an I/O error as an I/O error
       [] kind = "merge"        -> "merge"                                   \* a merge error as a merge error
       [] kind = "create:fmt"   -> "fmt"                                     \* the creator's own error variant
       [] kind = "create:codec" -> "codec"
